@@ -144,7 +144,7 @@ def mk_civil(pid, title, rule, text, need):
 CHECKS["C04"] = mk_civil("C04", "civil-time construction normalizes exactly",
     "(a) every day of 2000-2399 x 3 times of day x complete product of per-field carries {0,+1,-1} on seconds/minutes/hours/months and month-shifts {0,1,-1,-12,12} of the day field (so the day field lands on 0, +-28..31, +-365/366 +- 1) (mathematical value unchanged); (b) a reduced base set (month ends of the century/4-year boundaries) x carries {0,+-1,+-2,+-1000003[,+-2^31,+-97]}^4 x month shifts {0,+-1,+-12,13,-14,-48,4800}; (c) complete product of the 64-bit boundary alphabet (22 values quick / 29 thorough, incl. -365, -366, +-146097)^6 restricted to the stated representability bound; class = which generator produced the tuple; all six alignments and all cross-alignment conversions on a fixed subset",
     "Every tuple is constructed in the real library (UBSan+ASan build) and compared with the 128-bit reference value; accessor ranges asserted; alignments and cross-alignment conversions compared with field truncation.",
-    ["C04:cycle-small", "C04:cycle-big", "C04:boundary-product"])
+    ["C04:cycle-small", "C04:cycle-big", "C04:boundary-product", "C04:dense-one-field", "C04:dense-field-pair"])
 CHECKS["C05"] = mk_civil("C05", "civil arithmetic and difference are exact inverses",
     "every aligned value of the 146097-day cycle (day: all days; month: 4800; year: 400; hour/minute/second: every day x time of day) at eras {0, max, min [, +-1, -6, +-1e3]} x n in {0, +-(1,2,23..32,59..61,365,366,1460,1461,36524,36525,146096..146098,2*146097,2^31,2^62), INT64_MIN, INT64_MIN+1, INT64_MAX}, and for hour/minute/second alignments (era 0) every whole number of days from 364 to 397 in both directions; plus every day of the 3 first/last representable years; plus boundary-year x boundary-month/day difference product; unrepresentable results skipped and counted",
     "a+n, a-n, (a+n)-a, a-(a+n), b+(a-b), ++/--/+=/-= and all six relational operators compared with the linear index of the reference calendar, for each of the six alignments.",
